@@ -23,20 +23,25 @@ import warnings
 
 import common
 from common import short
-from gen import refactor_gen
+from gen import refactor_gen, refactor_shapes
 from props.c07 import dump_tree, load_own_known, split_keepends, sandbox_quirk
 
 MODELS = ['Refactor', 'Tree']
 MANIFEST = dict(
     text='Theorems over the model of refactoring.inline and extract._replace: inline either refuses (messages '
          'identical to the source, translator-checked) or rewrites only the references, the defining statement and '
-         'the leaf after it; its parenthesisation rule (EXPRESSION_PARTS taken from the source) is sound against a '
-         'precedence table of 58 syntactic slots x 20 kinds of right-hand side except for 20 listed rows, each '
-         'kernel-checked to be a counter-example and replayed on the real code (F7/F8 and relatives); _replace '
-         'inserts the extracted line into the prefix and keeps every other byte. Tie: translator + correspondence '
-         '(table rows through the real inline and through CPython ast; captured inline/_replace calls on generated '
-         'programs). Compiles-or-refuses, behavioural equivalence and the extract->inline round trip are checked '
-         'by compiling and executing generated programs (a test, labelled as such).',
+         'the leaf after it; its parenthesisation rule is translated from the source as data (EXPRESSION_PARTS, the '
+         'extra parent-type lists, the `**` disjunct, the attribute-reference slot; original and fixed shape both '
+         'accepted) and evaluated once against a precedence table of 58 syntactic slots x 20 kinds of right-hand '
+         'side: the unsound rows are exactly the listed ones (20 for the original source, each a kernel-checked '
+         'counter-example replayed on the real code = F7/F8 and relatives; none for the fixed shape, where the FULL '
+         'soundness theorem holds; a general theorem shows every rule at least as strong as the proposed fix is '
+         'sound); _replace inserts the extracted line into the prefix, keeps every other byte, and keeps the whole '
+         'prefix of the replaced expression. Tie: translator + correspondence (table rows through the real inline '
+         'and through CPython ast; captured inline/_replace calls on generated programs). Compiles-or-refuses, '
+         'behavioural equivalence and the extract->inline round trip are checked by compiling and executing '
+         'generated programs (a test, labelled as such); failures of known root causes are recognised by an '
+         'explicit syntactic rule per root cause (harness/gen/refactor_shapes.py), anything else is a VIOLATION.',
     note='Modelled not verified: which names get_references returns, _find_nodes (selection normalisation) and '
          "extract_function's input/output analysis are oracle-checked only; CPython's parser is the judge of "
          'the precedence table.',
@@ -74,6 +79,15 @@ def adump(src):
             return ast.dump(ast.parse(src))
         except (SyntaxError, ValueError):
             return None
+
+
+def fail(ctx, stream, what, case, observed, expected=None, src=None, request=None):
+    """ctx.fail with the root-cause shape of the input (harness/gen/refactor_shapes.py) in the case;
+    `src` / `request` = the program and request the shape is read from (default: the case itself)"""
+    src = case['source'] if src is None else src
+    request = case if request is None else request
+    shape = refactor_shapes.shape_of(src, request, stream, observed)
+    ctx.fail(stream, what, dict(case, shape=shape), expected=expected, observed=observed, how=HOW)
 
 
 # ------------------------------------------------------------------ parens table
@@ -124,7 +138,7 @@ def stream_parens(ctx, table):
         if ctx.quick and not row['needs'] and rng.random() > 0.12:
             continue
         src = 'x = %s\n%s\n' % (sample, tmpl.replace('X', 'x'))
-        case = {'source': src, 'line': 1, 'column': 0, 'kind': 'inline', 'ctx': row['ctx'], 'rhs': row['rhs']}
+        case = {'source': src, 'line': 1, 'column': 0, 'kind': 'inline', 'row': [row['ctx'], row['rhs']]}
         try:
             new = new_code_of(jedi.Script(src).inline(1, 0))
         except RefactoringError as e:
@@ -147,8 +161,8 @@ def stream_parens(ctx, table):
         ctx.count('oracle-parens', key, nontrivial=True, bucket=row['parent'])
         err = compiles(new)
         if err is not None:
-            ctx.fail('oracle-parens', 'inline result does not compile', case, expected=want_par,
-                     observed={'new_code': new, 'error': err}, how=HOW)
+            fail(ctx, 'oracle-parens', 'inline result does not compile', case, expected=want_par,
+                 observed={'new_code': new, 'error': err})
         elif adump(new) != d_par:
             diff = None
             for env in ENVS:
@@ -157,8 +171,8 @@ def stream_parens(ctx, table):
                     diff = {'env': {k: repr(v) for k, v in env.items()}, 'old_y': o, 'new_y': n}
                     break
             if diff is not None:
-                ctx.fail('oracle-parens', 'inlined program computes a different value', case,
-                         expected=want_par, observed=dict(diff, new_code=new), how=HOW)
+                fail(ctx, 'oracle-parens', 'inlined program computes a different value', case,
+                     expected=want_par, observed=dict(diff, new_code=new))
             else:
                 ctx.count('oracle-parens-ast-differs-no-witness', key, nontrivial=False, bucket=row['ctx'])
 
@@ -196,6 +210,10 @@ class Capture:
         self.mods[0].inline, self.mods[1]._replace = self.orig
 
 
+def _is_dstar(node):
+    return node is not None and node.type == 'operator' and node.value == '**'
+
+
 def inline_request(names, module_node):
     """the facts `inline` inspects, read off the captured names (single-file cases only)"""
     tree, ids = dump_tree(module_node)
@@ -206,7 +224,8 @@ def inline_request(names, module_node):
         if tn is None:
             ns.append({'api_type': n.api_type, 'has_tree': False, 'is_def': False, 'id': 0, 'prefix': '',
                        'parent_type': '', 'parent_next': False, 'parent_id': 0, 'dot_trailer': False,
-                       'first_prefix': '', 'before': []})
+                       'first_prefix': '', 'before': [], 'prev_dstar': False, 'slot_parent_type': '',
+                       'slot_parent_next': False, 'slot_prev_dstar': False})
             continue
         if id(tn) not in ids:
             return None, None
@@ -220,10 +239,17 @@ def inline_request(names, module_node):
         is_def = tn.is_definition()
         if is_def:
             defs.append(tn)
+        # the slot of the whole `obj.name` (inspected by the fixed source for a final `.name` trailer)
+        whole = par.parent if dot else None
+        wpar = whole.parent if whole is not None else None
         ns.append({'api_type': n.api_type, 'has_tree': True, 'is_def': is_def, 'id': ids[id(tn)],
                    'prefix': tn.prefix, 'parent_type': par.type,
                    'parent_next': par.get_next_sibling() is not None, 'parent_id': ids[id(par)],
-                   'dot_trailer': dot, 'first_prefix': first_prefix, 'before': before})
+                   'dot_trailer': dot, 'first_prefix': first_prefix, 'before': before,
+                   'prev_dstar': _is_dstar(tn.get_previous_sibling()),
+                   'slot_parent_type': wpar.type if wpar is not None else '',
+                   'slot_parent_next': wpar is not None and wpar.get_next_sibling() is not None,
+                   'slot_prev_dstar': whole is not None and _is_dstar(whole.get_previous_sibling())})
     d = {'stmt_type': '', 'stmt_id': 0, 'n_defined': 0, 'child1_type': '', 'child1_value': '', 'child1_code': '',
          'ann_len': 0, 'ann2_value': '', 'rhs_type': '', 'rhs_code': '', 'stmt_prefix': '', 'next_id': 0,
          'next_prefix': '', 'next_type': '', 'next_value': ''}
@@ -277,6 +303,8 @@ def selection_info(src, start, end):
     import parso
     mod = parso.parse(src)
     leaf = mod.get_leaf_for_position(start, include_prefixes=True)
+    if leaf is not None and leaf.end_pos <= start and leaf.get_next_leaf() is not None:
+        leaf = leaf.get_next_leaf()     # a range that starts where a leaf ends starts with the next leaf
     info = {'while_cond': False, 'binds': False, 'target': False, 'multiline': start[0] != end[0],
             'in_lambda_or_comp': False}
     text_lines = split_keepends(src)
@@ -374,35 +402,6 @@ def name_positions(src):
     return out
 
 
-def multiline_statement(src, pos):
-    """does the (simple) statement that contains `pos` span more than one line?"""
-    import parso
-    mod = parso.parse(src)
-    n = mod.get_leaf_for_position(tuple(pos), include_prefixes=True)
-    while n is not None and n.parent is not None and n.type not in ('simple_stmt', 'expr_stmt', 'return_stmt'):
-        n = n.parent
-    if n is None or n.parent is None:
-        return False
-    last = n.get_last_leaf()
-    if last.type == 'newline':
-        last = last.get_previous_leaf()
-    return n.start_pos[0] != last.end_pos[0]
-
-
-def tags_for(src, kind, start, end, info):
-    """coarse classification of an input, used only to key known findings"""
-    tags = []
-    if info and info.get('multiline'):
-        tags.append('multiline-selection')
-    if end is not None and end[1] == 0 and end[0] > start[0]:
-        tags.append('until-at-next-line-start')
-    return tags
-
-
-def behaviour(res):
-    return res
-
-
 def compare_runs(old, new, ignore):
     if old[0] != new[0]:
         return {'old': old[:2] if old[0] != 'ok' else 'ok', 'new': new[:2] if new[0] != 'ok' else 'ok'}
@@ -472,6 +471,13 @@ def stream_programs(ctx, reqs, pending):
             kind = 'extract_variable' if rng.random() < 0.65 else 'extract_function'
             explicit = (not whole) or rng.random() < 0.5
             todo.append((kind, s, e if explicit else None, typ, whole))
+        # stratum: expressions inside methods that mention `self` (the bound-method path of
+        # extract_function: self parameter, `self.` call) - two per program that has a class
+        lines_ = src.splitlines()
+        with_self = [x for x in sels if x[0][0] == x[1][0] and x[0][0] <= len(lines_)
+                     and 'self' in lines_[x[0][0] - 1][x[0][1]:x[1][1]]]
+        for (s, e, typ, whole) in with_self[:2]:
+            todo.append(('extract_function', s, e, typ, whole))
         st = statement_ranges(src)
         rng.shuffle(st)
         for (s, e, nextline) in st[:ctx.size(3, 6)]:
@@ -484,16 +490,7 @@ def stream_programs(ctx, reqs, pending):
             case = {'source': src, 'kind': kind, 'line': s[0], 'column': s[1],
                     'until_line': e[0] if e else None, 'until_column': e[1] if e else None}
             info = selection_info(src, s, e) if e is not None and kind != 'inline' else None
-            if kind == 'inline':
-                case['tags'] = sorted(classify_inline(src, s))
-                case['semicolon_statement'] = 'semicolon-statement' in case['tags']
-                case['attribute_reference'] = 'attribute-reference' in case['tags']
-            else:
-                case['tags'] = []
-                case['multiline_statement'] = multiline_statement(src, s)
-                case['until_next_line_start'] = e is not None and e[1] == 0 and e[0] > s[0]
-                case['stmt_text_end'] = typ == 'stmts'
-                case['selection_is_target'] = bool(info and info['target'] and not typ.startswith('stmts'))
+            case['tags'] = sorted(classify_inline(src, s)) if kind == 'inline' else [typ]
             key = (src, kind, s, e)
             script = jedi.Script(src)
             with Capture() as cap:
@@ -541,8 +538,8 @@ def stream_programs(ctx, reqs, pending):
                       sample={'request': {k: v for k, v in case.items() if k != 'source'}})
             cerr = compiles(new)
             if cerr is not None:
-                ctx.fail('oracle-compile', '%s returned a program that does not compile' % kind, case,
-                         observed={'error': cerr, 'new_code': new}, how=HOW)
+                fail(ctx, 'oracle-compile', '%s returned a program that does not compile' % kind, case,
+                     observed={'error': cerr, 'new_code': new})
                 continue
             # --- equivalence (pure, evaluated-once expression selections; inline of single assignments)
             judged = False
@@ -561,8 +558,8 @@ def stream_programs(ctx, reqs, pending):
             ctx.count('oracle-equiv' if judged else 'equiv-not-judged', key, nontrivial=judged,
                       bucket='%s/%s%s' % (kind, typ, '' if diff is None else '/differs'))
             if judged and diff is not None:
-                ctx.fail('oracle-equiv', '%s changed the behaviour of the program' % kind, case,
-                         observed={'differences': diff, 'new_code': new}, how=HOW)
+                fail(ctx, 'oracle-equiv', '%s changed the behaviour of the program' % kind, case,
+                     observed={'differences': diff, 'new_code': new})
                 continue
             # --- extract -> inline round trip
             if kind == 'extract_variable' and judged and diff is None:
@@ -578,19 +575,21 @@ def stream_programs(ctx, reqs, pending):
                     except Exception as ex:
                         ctx.count('raised', None, nontrivial=False, bucket=type(ex).__name__)
                         continue
-                    rtags = classify_inline(new, (line, col))
-                    rcase = dict(case, kind='extract_variable+inline', tags=sorted(rtags),
-                                 semicolon_statement='semicolon-statement' in rtags)
+                    rcase = dict(case, kind='extract_variable+inline', tags=sorted(classify_inline(new, (line, col))))
+                    # the shape of a round-trip failure is read from the inline request on the intermediate program
+                    rreq = {'kind': 'inline', 'line': line, 'column': col}
                     ctx.count('oracle-roundtrip', key, nontrivial=True, bucket=typ)
                     cerr = compiles(back)
                     if cerr is not None:
-                        ctx.fail('oracle-roundtrip', 'extract_variable then inline does not compile', rcase,
-                                 observed={'error': cerr, 'after_extract': new, 'after_inline': back}, how=HOW)
+                        fail(ctx, 'oracle-roundtrip', 'extract_variable then inline does not compile', rcase,
+                             observed={'error': cerr, 'after_extract': new, 'after_inline': back}, src=new,
+                             request=rreq)
                         continue
                     d2 = compare_runs(old_run, refactor_gen.run_program(back), {'extracted_1'})
                     if d2 is not None:
-                        ctx.fail('oracle-roundtrip', 'extract_variable then inline is not equivalent to the '
-                                 'original', rcase, observed={'differences': d2, 'after_inline': back}, how=HOW)
+                        fail(ctx, 'oracle-roundtrip', 'extract_variable then inline is not equivalent to the '
+                             'original', rcase, observed={'differences': d2, 'after_inline': back}, src=new,
+                             request=rreq)
 
 
 def fixed_probes(ctx):
@@ -604,23 +603,64 @@ def fixed_probes(ctx):
     for src, pos, tags in probes:
         case = {'source': src, 'kind': 'inline', 'line': pos[0], 'column': pos[1], 'until_line': None,
                 'until_column': None, 'tags': sorted(classify_inline(src, pos))}
-        case['semicolon_statement'] = 'semicolon-statement' in case['tags']
         new = new_code_of(jedi.Script(src).inline(*pos))
         ctx.count('oracle-compile', (src, pos), nontrivial=True, bucket='probe')
         cerr = compiles(new)
         if cerr is not None:
-            ctx.fail('oracle-compile', 'inline returned a program that does not compile', case,
-                     observed={'error': cerr, 'new_code': new}, how=HOW)
+            fail(ctx, 'oracle-compile', 'inline returned a program that does not compile', case,
+                 observed={'error': cerr, 'new_code': new})
     src = 'x = (1 +\n     2)\n'
     case = {'source': src, 'kind': 'extract_variable', 'line': 1, 'column': 5, 'until_line': 2,
-            'until_column': 6, 'tags': [], 'multiline_statement': True, 'until_next_line_start': False,
-            'stmt_text_end': False, 'selection_is_target': False}
+            'until_column': 6, 'tags': []}
     new = new_code_of(jedi.Script(src).extract_variable(1, 5, new_name='extracted_1', until_line=2, until_column=6))
     cerr = compiles(new)
     ctx.count('oracle-compile', (src, 1, 5), nontrivial=True, bucket='probe')
     if cerr is not None:
-        ctx.fail('oracle-compile', 'extract_variable returned a program that does not compile', case,
-                 observed={'error': cerr, 'new_code': new}, how=HOW)
+        fail(ctx, 'oracle-compile', 'extract_variable returned a program that does not compile', case,
+             observed={'error': cerr, 'new_code': new})
+    # one minimal input per root cause of known_findings.d/C06.json (compile, then equivalence)
+    more = [
+        ('def f(a):\n    return a * -a\ny = f(3)\n', 'extract_variable', (2, 11), (2, 17)),
+        ('def f(a):\n    return -a + 1\ny = f(3)\n', 'extract_variable', (2, 11), (2, 17)),
+        ('y = 7 - 2 - 1\n', 'extract_variable', (1, 8), (1, 13)),
+        ('def f():\r\n    a = 1\r\n\r\n    b = a\r\n    return b\r\ny = f()\r\n', 'extract_function', (2, 4), (4, 9)),
+        ('class A:\n    x = not 1\n    def f(self):\n        return 2 + self.x\ny = A().f()\n', 'inline', (2, 4), None),
+        ('def f(a):\n    b = a + 1; c = b or b\n    return c\ny = f(1)\n', 'extract_variable', (2, 19), (2, 25)),
+        ('def f():\n    a = 1\n    return a\ny = f()\n', 'extract_function', (2, 4), (2, 5)),
+        ('def f():\n    a = 1\n    return a\ny = f()\n', 'extract_function', (2, 4), (2, 9)),
+        ('def f():\n    a = 1\n    return a\ny = f()\n', 'extract_function', (3, 4), (4, 0)),
+    ]
+    from jedi.api.exceptions import RefactoringError
+    for src, kind, pos, until in more:
+        case = {'source': src, 'kind': kind, 'line': pos[0], 'column': pos[1],
+                'until_line': until[0] if until else None, 'until_column': until[1] if until else None,
+                'tags': ['probe']}
+        try:
+            if kind == 'inline':
+                ref = jedi.Script(src).inline(*pos)
+            else:
+                ref = getattr(jedi.Script(src), kind)(pos[0], pos[1], new_name='extracted_1',
+                                                      until_line=until[0], until_column=until[1])
+        except (RefactoringError, ValueError):
+            ctx.count('oracle-compile', (src, kind, pos), nontrivial=False, bucket='probe/refused')
+            continue
+        except Exception as ex:
+            if sandbox_quirk(ex):
+                ctx.count('raised-sandbox', None, nontrivial=False)
+                continue
+            raise
+        new = new_code_of(ref)
+        ctx.count('oracle-compile', (src, kind, pos, until), nontrivial=True, bucket='probe')
+        cerr = compiles(new)
+        if cerr is not None:
+            fail(ctx, 'oracle-compile', '%s returned a program that does not compile' % kind, case,
+                 observed={'error': cerr, 'new_code': new})
+            continue
+        diff = compare_runs(refactor_gen.run_program(src), refactor_gen.run_program(new), {'extracted_1', 'x'})
+        ctx.count('oracle-equiv', (src, kind, pos, until), nontrivial=True, bucket='probe')
+        if diff is not None and (kind != 'extract_function' or until[0] == pos[0]):
+            fail(ctx, 'oracle-equiv', '%s changed the behaviour of the program' % kind, case,
+                 observed={'differences': diff, 'new_code': new})
 
 
 def compare(ctx, reqs, pending, answers):
@@ -642,17 +682,14 @@ def compare(ctx, reqs, pending, answers):
 
 def run(ctx):
     load_own_known(ctx, 'C06')
-    table = None
-    if ctx.model_ok:
-        table = common.run_driver('C06', [{'op': 'table'}])[0]
     reqs, pending = [], []
     fixed_probes(ctx)
-    if table is not None:
-        stream_parens(ctx, table)
     stream_programs(ctx, reqs, pending)
     if ctx.model_ok:
-        answers = common.run_driver_parallel('C06', reqs)
-        compare(ctx, reqs, pending, answers)
+        # one driver run: the table first, then the captured inline / _replace calls
+        answers = common.run_driver_parallel('C06', [{'op': 'table'}] + reqs)
+        stream_parens(ctx, answers[0])
+        compare(ctx, reqs, pending, answers[1:])
     else:
         ctx.notes.append('model did not build: correspondence skipped, oracle only')
     ctx.obligations['assumptions'] = [
